@@ -226,3 +226,22 @@ Proof.
   intros mode f0 rest o t n Hk Hwf H. rewrite (fields_spec mode f0 rest o t n Hwf H).
   rewrite (spec_kept_none o _ Hk). reflexivity.
 Qed.
+
+Theorem npy_files_closed_ex : forall mode f0 rest o,
+  mode <> MBad -> wf_file f0 ->
+  (forall f, In f rest -> wf_file f /\ covers f0 f o) ->
+  exists n, npy_load mode (map Some (f0 :: rest)) o = Ok (spec_load_files f0 rest o, n).
+Proof. intros. eexists. apply npy_files_closed; assumption. Qed.
+
+Theorem keep_empty_vs_none : forall mode f0 rest o,
+  mode <> MBad -> wf_file f0 -> (forall f, In f rest -> wf_file f) ->
+  (o_keep o = Some [] ->
+     (exists n, npy_load mode (map Some (f0 :: rest)) o = Ok ([], n)) /\
+     txt_load (map Some (f0 :: rest)) o = Err ValueError) /\
+  (o_keep o = None -> forall t n,
+     npy_load mode (map Some (f0 :: rest)) o = Ok (t, n) -> tnames t = map fst (f_schema f0)).
+Proof.
+  intros mode f0 rest o Hm Hwf Hrest. split.
+  - intros Hk. split; [apply keep_empty_npy; assumption|]. cbn [map]. apply keep_empty_csv. exact Hk.
+  - intros Hk t n H. cbn [map] in H. eapply keep_none_npy; eassumption.
+Qed.
